@@ -90,14 +90,14 @@ OPS = {
     'quadgl@53': at(53, lambda e, mp: mp.quadgl(mp.cos, [0, 2])), 'quadinf@53': at(53, lambda e, mp: mp.quad(lambda x: mp.exp(-x * x), [-mp.inf, mp.inf])),
     'hypint@53': at(53, lambda e, mp: mp.hyp1f1(1, 3, mp.mpf('0.7'))), 'hyprat@53': at(53, lambda e, mp: mp.hyp1f1(mp.mpf(1) / 2, mp.mpf(5) / 2, mp.mpf('0.7'))),
     'hypreal@30': at(30, lambda e, mp: mp.hyp1f1(mp.mpf('0.3'), mp.mpf('2.7'), mp.mpf('0.7'))), 'hypcplx@53': at(53, lambda e, mp: mp.hyp2f1(mp.mpc(1, 1), 2, mp.mpf('2.5'), mp.mpf('0.3'))),
-    'lu@30': at(30, lambda e, mp: mp.lu(e['A'])), 'lu@200': at(200, lambda e, mp: mp.lu(e['A'])), 'LUdec@30': at(30, lambda e, mp: mp.LU_decomp(e['A'])),
+    'lu@30': at(30, lambda e, mp: mp.lu(e['A'])), 'lu@53': at(53, lambda e, mp: mp.lu(e['A'])), 'lu@200': at(200, lambda e, mp: mp.lu(e['A'])), 'LUdec@30': at(30, lambda e, mp: mp.LU_decomp(e['A'])),
     'det@53': at(53, lambda e, mp: mp.det(e['A'])), 'inverse@53': at(53, lambda e, mp: mp.inverse(e['A'])),
     'A[0,0]=': at(53, _setitem), 'A[1,:]=': at(53, _setslice), 'A[:,2]=': at(53, _setcol), 'A[2,2]=': at(53, _setelem), 'A.copy': at(53, lambda e, mp: e['A'].copy()),
     'memo@30': at(30, lambda e, mp: e['memo'](2)), 'memo@200': at(200, lambda e, mp: e['memo'](2)),
     'ode2@53': at(53, lambda e, mp: e['ode'](2)), 'ode5@53': at(53, lambda e, mp: e['ode'](5)), 'ode1@100': at(100, lambda e, mp: e['ode'](1)),
     'clonepi@40': lambda e: (setattr(e['clone'], 'prec', 40), +e['clone'].pi)[1], 'ivexp@30': lambda e: _iv(30), 'fpgamma': lambda e: __import__('mpmath').fp.gamma(3.7),
 }
-CORE = ['pi@30', 'pi@400', 'bern40@30', 'log@700', 'log@30', 'cos@1000', 'zeta5@20', 'quad01@20', 'quad01@120', 'lu@30', 'LUdec@30', 'A[1,:]=', 'A[:,2]=', 'A[2,2]=', 'memo@30', 'ode5@53', 'gamma@300']
+CORE = ['pi@30', 'pi@400', 'bern40@30', 'log@700', 'log@30', 'cos@1000', 'zeta5@20', 'quad01@20', 'quad01@120', 'lu@30', 'lu@53', 'LUdec@30', 'A[1,:]=', 'A[:,2]=', 'A[2,2]=', 'memo@30', 'ode5@53', 'gamma@300']
 
 
 def _iv(p):
@@ -160,7 +160,7 @@ PROBES = [
     ('zeta3@100', 'tol', at(100, lambda e, mp: mp.zeta(3))), ('zeta5@100', 'tol', at(100, lambda e, mp: mp.zeta(5))), ('gamma@100', 'tol', at(100, lambda e, mp: mp.gamma(mp.mpf('3.7')))),
     ('quad01@53', 'tol', at(53, lambda e, mp: mp.quad(mp.sin, [0, 1]))), ('quad01@100', 'tol', at(100, lambda e, mp: mp.quad(mp.sin, [0, 1]))),
     ('hyp@53', 'tol', at(53, lambda e, mp: mp.hyp1f1(1, mp.mpf('2.5'), mp.mpf('0.7')))), ('hypreal@100', 'tol', at(100, lambda e, mp: mp.hyp1f1(mp.mpf('0.3'), mp.mpf('2.7'), mp.mpf('0.7')))),
-    ('lu-residual@200', 'bool', at(200, _lu_ok)), ('LUdecomp-det@200', 'bool', at(200, _lud_ok)), ('det-consistent@200', 'bool', at(200, _det_ok)),
+    ('lu-residual@53', 'bool', at(53, _lu_ok)), ('LUdecomp-det@53', 'bool', at(53, _lud_ok)), ('lu-residual@200', 'bool', at(200, _lu_ok)), ('LUdecomp-det@200', 'bool', at(200, _lud_ok)), ('det-consistent@200', 'bool', at(200, _det_ok)),
     ('memo@200', 'bool', at(200, _memo_ok)), ('ode3@53', 'bool', at(53, _ode_ok)), ('clonepi@80', 'exact', lambda e: (setattr(e['clone'], 'prec', 80), +e['clone'].pi)[1]),
     ('iv-contains-e', 'bool', lambda e: _iv_ok(e, __import__('mpmath').mp)),
 ]
